@@ -369,6 +369,12 @@ func (f *Frame) lookupName(name string) (nameDef, bool) {
 
 func (f *Frame) lookupName1(name string) (nameDef, bool) {
 	defs := f.names[name]
+	hasParamDef := false
+	for _, d := range defs {
+		if d.block == nil {
+			hasParamDef = true
+		}
+	}
 	var best nameDef
 	found := false
 	bestDepth := -1
@@ -380,6 +386,13 @@ func (f *Frame) lookupName1(name string) (nameDef, bool) {
 			continue
 		}
 		if f.cur == nil {
+			// at an exit: a local defined in the entry block dominates every exit
+			// (a name that is also a parameter keeps denoting the parameter)
+			if _, defined := f.regs[d.v]; defined && !hasParamDef && d.block == f.fn.Blocks[0] && !isPhi(d.v) {
+				if depth := d.idx; depth > bestDepth {
+					best, found, bestDepth = d, true, depth
+				}
+			}
 			continue
 		}
 		ok := false
